@@ -38,6 +38,14 @@ def OPT(t):
     return ("opt", t)
 
 
+def UNION(*ts):
+    return ("union",) + tuple(ts)
+
+
+def CONST(*vals):
+    return ("const", list(vals))
+
+
 class LoopSpec:
     def __init__(self, inv_src, modsrc=None):
         self.inv_src = inv_src
@@ -104,7 +112,9 @@ class Contract:
         args = [to_spec_arg(x) for x in args]
         if self.requires is not None:
             rq = ex.wrap(self.requires)
-            outs = list(call_spec(ex, st, rq, args, kwargs, node))
+            import inspect as _inspect
+            nreq = len(_inspect.signature(self.requires).parameters)
+            outs = list(call_spec(ex, st, rq, args[:nreq], kwargs if nreq > len(args) else {}, node))
             if len(outs) != 1 or isinstance(outs[0][0], Raised):
                 raise Unsupported(f"precondition of {self.qual} forks or raises")
             v, st = outs[0]
@@ -227,6 +237,11 @@ def make_param(ctx, name, ty):
     """all alternatives for a parameter of declared type -> list of (label, value)"""
     if isinstance(ty, tuple) and ty[0] == "opt":
         return [("None", NONE)] + make_param(ctx, name, ty[1])
+    if isinstance(ty, tuple) and ty[0] == "union":
+        out = []
+        for t in ty[1:]:
+            out.extend(make_param(ctx, name, t))
+        return out
     if ty == STR:
         return [("str", ("str", name))]
     if ty == INT:
@@ -391,8 +406,11 @@ def verify_contract(contract, registry, combo_filter=None, timeout_ms=10000, rou
                     # the precondition may itself be a partial, branching specification
                     # (e.g. "the authority splits without error"): every way of satisfying it
                     # is explored; ways of violating it (False / raise) are outside the contract
+                    import inspect as _inspect
+                    nreq = len(_inspect.signature(contract.requires).parameters)
+
                     def _pre(st0):
-                        for v, s1 in call_spec(ex, st0, ex.wrap(contract.requires), sargs, {}):
+                        for v, s1 in call_spec(ex, st0, ex.wrap(contract.requires), sargs[:nreq], {}):
                             if isinstance(v, Raised):
                                 continue
                             t = z3.simplify(ex.truth(s1, v))
